@@ -54,6 +54,8 @@ def apply(state, op, depth=0):
         return _txn(state, op, depth)
     if name in ('sleep', 'close'):
         return state, OK_NONE
+    if name == 'reset':
+        return state, ('ok', fp(op['value']))
     if name == 'len':
         return state, ('ok', fp(len(state)))
     if name == 'clear':
